@@ -199,6 +199,8 @@ pub fn run(a: &Args, rep: &mut Report) {
                 _ => {}
             }
             let mut obs = Vec::new();
+            let mut maddr = 0u64;
+            let mut have_maddr = false;
             for pi in &c.pkts {
                 let mb = if c.kind == Kind::Mbuff { (mbuff.addr() as *mut u8, mbuff.len()) } else { (std::ptr::null_mut(), 0) };
                 if let Probe::LdAbs(wd, k) | Probe::LdInd(wd, k) | Probe::LdAbsAfterHelper(wd, k) = c.probe {
@@ -208,11 +210,15 @@ pub fn run(a: &Args, rep: &mut Report) {
                         continue;
                     }
                 }
-                // reference run of the interpreter on the same VM object to learn the address of the
-                // fixed VM's internal buffer (hook)
-                hooks::unlimited();
-                let _ = vm.exec(pk(*pi), mb);
-                let (maddr, _) = hooks::mbuff();
+                // ONE reference run of the interpreter on the same VM object (before the first
+                // execution only, so that it cannot mask state left over between executions) to
+                // learn the address of the fixed VM's internal buffer (hook)
+                if !have_maddr {
+                    hooks::unlimited();
+                    let _ = vm.exec(pk(*pi), mb);
+                    maddr = hooks::mbuff().0;
+                    have_maddr = true;
+                }
                 let r = unsafe {
                     match c.engine {
                         Engine::Interp => vm.exec(pk(*pi), mb),
